@@ -114,7 +114,7 @@ Section XmlRetain.
       { apply (Hanc 1). cbn [length]. lia. }
       assert (Hstep : xstep pm pred has_filter false (mkS (f :: r) None SNone) (XStart anm afs aattrs)
                       = RCont (mkS (g :: f :: r) None SNone)).
-      { cbn [xstep s_stack]. unfold push. cbn [s_stack s_stream]. fold g.
+      { cbn [xstep s_stack]. rewrite xstart_eq. fold g.
         rewrite (cc_fresh pm g f r HI Hg Hgk), Hp1. reflexivity. }
       rewrite (xrun_cont _ _ _ _ _ Hstep).
       assert (HI1 : Inv pm (g :: f :: r)) by (apply inv_push; assumption).
